@@ -120,7 +120,9 @@ func runEnvK(s *section, f *common.C15Field, kind, text string) {
 		if err == nil && string(after) == string(before) {
 			kept = 1
 		}
-		if res == "ok" && err == nil {
+		// the saved value equals the decoded one only on rows loaded and saved directly (SetIfNotDefault / mergo skip a zero,
+		// lenient list codecs drop elements, codecs normalise): elsewhere only res / kept are compared
+		if res == "ok" && err == nil && f.Load == "direct" && f.Save == "direct" && f.Codec == "" {
 			var m map[string]interface{}
 			if json.Unmarshal(after, &m) == nil {
 				if c, ok := envkCanon(getPath(m, f.Path)); ok {
